@@ -356,14 +356,20 @@ def run(sched):
             else:
                 raise ValueError(do)
             await w.loop.settle()
-        for _ in range(1000):     # nothing stays suspended: quiescence means every rendering has finished
+        hz = sched.get("horizon")
+        for _ in range(100):
+            # nothing stays suspended: quiescence means every rendering has finished (a rendering may also
+            # begin while the loop is drained, e.g. after a sleeping first rendering: drain again then)
+            for _ in range(1000):
+                res.gates = [x for x in res.gates if not x[3].done()]
+                if not res.gates:
+                    break
+                res.release()
+                await w.loop.settle()
+            await w.loop.drain(horizon=None if hz is None else (last_at + hz) / 1024.0)
             res.gates = [x for x in res.gates if not x[3].done()]
             if not res.gates:
                 break
-            res.release()
-            await w.loop.settle()
-        hz = sched.get("horizon")
-        await w.loop.drain(horizon=None if hz is None else (last_at + hz) / 1024.0)
         for c in w.loop.exceptions:
             exc = c.get("exception")
             ev("loopexc", x=type(exc).__name__ if exc is not None else "message")
